@@ -28,7 +28,8 @@ pub fn scenarios(thorough: bool) -> Vec<Scenario> {
     mnet.pre = vec![Action::Jump(829_998)];
     mnet.cfg.adversarial = false;
     mnet.cfg.pairs = false;
-    mnet.cfg.faucets = false;
+    // on mainnet the faucet alphabet holds the grandfathered transaction, which may be applied again and again (same coin, one count)
+    mnet.cfg.faucets = true;
     v.push(mnet);
     // testnet after activation, still inside the legacy deposit window (< 978392): deposits and withdrawals settle with counts on
     let mut td = pools.clone();
